@@ -38,7 +38,14 @@ for _p, _t in (("C07", "derive skeleton recovered from expanded, type-checked MI
     import derive_prop as _dp
     CHECKS[_p] = ("other", _t, _dp.TEXT[_p], DERIVE_NOTE, "§5 " + _p)
 
-NOT_YET = {p: 'check not yet built in this revision of /verif (construction order in DESIGN.md §8); will be claimed when its rule set is armed' for p in ['C05'] + ['C%02d' % i for i in range(12, 21)]}
+CHECKS["C12"] = ("other", "panic-site census over MIR (Assert terminators, panic entry points, curated panicking std APIs) with per-site guard rules incl. relational typestate",
+                 "Every panic-capable site reachable from deserialize_from_value in the library, in the derive output of the catalogue, in the serde_json value source and in the built-in error types is discharged by a named guard rule (ARITY, TUPLEOPT, FIELDSTATE, ARRAY, JSONNUM, INFALLIBLE, SERIALIZE, CHARCOUNT, COUNTER); any other site - in particular a new unwrap, index or arithmetic on a deserialisation path - is reported.",
+                 TB + "; curated table of panicking std APIs, other std functions assumed total; Sequence::len agrees with the iterator; serde_json Number without arbitrary_precision; stack depth, allocation failure and user code out of scope", "§5 C12")
+CHECKS["C15"] = ("proof", "effect-commutativity of map loops over MIR: allowed iterator operations, loop-carried state, read/write sets of field states",
+                 "For payload objects without duplicate keys, all member orders and all value sources: object iterators are only created and stepped, map loops exit only on exhaustion or Break, the only state carried across iterations is the accumulator, the per-field state locals (written, never read in the loop), the iterator and the result collection (insert only), and the tag is removed by key before iteration; hence value and report set do not depend on member order.",
+                 TB + "; the order of reports inside an accumulated error may differ (statement says set); derived code per catalogue entry", "§5 C15")
+
+NOT_YET = {p: 'check not yet built in this revision of /verif (construction order in DESIGN.md §8); will be claimed when its rule set is armed' for p in ['C05', 'C13', 'C14'] + ['C%02d' % i for i in range(16, 21)]}
 
 
 def main():
